@@ -14,6 +14,29 @@ LONGS = ["input", "input-file", "input-dir", "in", "output", "out", "outfile", "
          "force", "format", "file"]
 WORDS = ["abc", "x", "hello", "Peter", "Paul", "Mary", "a=b", "v1", "007", "zz-top", "q", "long_value_text", "A"]
 
+# pattern checks: patterns inside the subset that Model/Regex.lean parses, each with values that match as a whole
+# (std::regex_match) and values that do not — the generator's own reading of the pattern, checked on the
+# implementation alone; the model's matcher is compared on the same lines
+PATTERNS = [
+    ("[a-c]+x?", ["abc", "a", "cabx", "bx"], ["x", "abd", "abxx", "Abc", "xabc"]),
+    ("(ab|cd)*e", ["e", "abe", "cdabe", "ababe"], ["ab", "abce", "ea", "abcde1"]),
+    ("[^0-9]+", ["abc", "x-y", "A"], ["a1", "7", "1a"]),
+    ("\\d+\\.\\d*", ["12.", "0.5", "3.14"], [".5", "12", "1.2.3", "a.1"]),
+    ("v[0-9]?", ["v", "v1", "v0"], ["v12", "V1", "1v"]),
+    ("^abc$", ["abc"], ["ab", "abcd", "xabc"]),
+    ("a.c", ["abc", "a-c", "a.c"], ["ac", "abbc", "abcd"]),
+    ("(?:x|yy)+", ["x", "yyx", "xyy", "yy"], ["y", "xy", "yyy"]),
+    ("\\w+", ["abc_1", "A", "007"], ["a-b", "a.b", "x="]),
+    ("[a-z]+[0-9]?", ["abc", "abc7", "z"], ["Abc", "abc77", "7", "ab7c"]),
+    ("a$|b", ["a", "b"], ["ab", "ba", "aa"]),
+    ("(^a|b)*", ["ab", "abb", "b", "bb", "a"], ["ba", "aa", "aba"]),
+    ("[xyz]*|q+", ["xyzzy", "qq", "q", "z"], ["xq", "qx", "w"]),
+    ("[\\d_-]+", ["1-2", "_", "2024-01"], ["a", "1.2", "1a"]),
+    ("x(y|)z", ["xz", "xyz"], ["xyyz", "x", "yz"]),
+    ("\\(\\w\\)", ["(a)", "(7)"], ["a", "(ab)", "()"]),
+    ("\\S+@\\S+", ["a@b", "me@host.org"], ["@", "a@", "ab"]),
+]
+
 
 def hx(s):
     if isinstance(s, str):
@@ -36,6 +59,7 @@ class Arg:
         self.lo, self.hi = -1000, 1000   # admissible int range (derived from checks)
         self.allowed = None         # allowed string values
         self.minlen, self.maxlen = 0, 99
+        self.pattern = None         # index into PATTERNS (string arguments)
 
     def keyspec(self):
         if self.short and self.long:
@@ -111,6 +135,9 @@ def gen_config(rng):
                 if rng.random() < 0.5:
                     a.maxlen = a.minlen + rng.randint(0, 6)
                     a.checks.append("maxlen:%d" % a.maxlen)
+            elif r < 0.65:
+                a.pattern = rng.randrange(len(PATTERNS))
+                a.checks.append("pattern:" + hx(PATTERNS[a.pattern][0]))
             if rng.random() < 0.3:
                 a.mandatory = True
             if rng.random() < 0.2:
@@ -162,6 +189,26 @@ def gen_config(rng):
             b = args[j]
             spell.append(rng.choice([f for f in (b.short, b.long, b.keyspec()) if f]))
         globs.append((kind, members, spell))
+    # value constraints: differ over int or over string arguments, disjoint over two list arguments
+    if n >= 2 and rng.random() < 0.4:
+        ints = [i for i, a in enumerate(args) if a.kind == "int"]
+        strs = [i for i, a in enumerate(args) if a.kind == "str"]
+        vecs = [i for i, a in enumerate(args) if a.kind == "vec"]
+        opts = []
+        if len(ints) >= 2:
+            opts.append(("differ", ints))
+        if len(strs) >= 2:
+            opts.append(("differ", strs))
+        if len(vecs) >= 2:
+            opts.append(("disjoint", vecs))
+        if opts:
+            kind, pool = rng.choice(opts)
+            members = rng.sample(pool, 2 if kind == "disjoint" else rng.randint(2, min(3, len(pool))))
+            spell = []
+            for j in members:
+                b = args[j]
+                spell.append(rng.choice([f for f in (b.short, b.long, b.keyspec()) if f]))
+            globs.append((kind, members, spell))
     abbr = rng.random() < 0.75
     return args, globs, abbr
 
@@ -206,6 +253,8 @@ def gen_value(rng, a):
     if a.kind == "str":
         if a.allowed:
             s = rng.choice(a.allowed)
+        elif a.pattern is not None:
+            s = rng.choice(PATTERNS[a.pattern][1])
         else:
             cands = [w for w in WORDS if a.minlen <= len(w) <= a.maxlen] or ["x" * a.minlen]
             s = rng.choice(cands)
@@ -334,8 +383,52 @@ def gen_uses(rng, args, globs):
                             viol = True
         if viol:
             continue
+        if not value_constraints_met(args, globs, uses):
+            continue
         return uses
     return None
+
+
+def final_values(args, uses):
+    """destination of every argument after the uses: (used?, value) — int: converted value, str: text,
+    vec: initial content + all elements"""
+    fin = {}
+    for i, a in enumerate(args):
+        if a.kind == "vec":
+            fin[i] = [False, [int(x) for x in a.init.split(",")] if a.init else []]
+        else:
+            fin[i] = [False, None]
+    for i, p in uses:
+        a = args[i]
+        if a.kind == "vec":
+            fin[i] = [True, fin[i][1] + list(p[1])]
+        elif a.kind in ("int", "str"):
+            fin[i] = [True, p[1]]
+        else:
+            fin[i][0] = True
+    return fin
+
+
+def value_constraints_met(args, globs, uses):
+    fin = final_values(args, uses)
+    for kind, members, _ in globs:
+        if kind == "differ":
+            vals = [fin[m][1] for m in members if fin[m][0]]
+            if len(set(vals)) != len(vals):
+                return False
+        elif kind == "disjoint":
+            a, b = members
+            if set(fin[a][1]) & set(fin[b][1]):
+                return False
+    return True
+
+
+def str_candidates(a):
+    if a.allowed:
+        return list(a.allowed)
+    if a.pattern is not None:
+        return list(PATTERNS[a.pattern][1])
+    return [w for w in WORDS if a.minlen <= len(w) <= a.maxlen]
 
 
 def expected(args, uses, extra_first=()):
@@ -606,6 +699,9 @@ def break_rule(rng, args, globs, uses, abbr):
         elif a.kind == "str":
             if a.allowed:
                 u[p] = (i, ("Nobody", ""))
+            elif a.pattern is not None:
+                u[p] = (i, (rng.choice(PATTERNS[a.pattern][2]), ""))
+                m = "bad_value:pattern"
             elif a.minlen > 0 and a.checks:
                 u[p] = (i, ("y" * (a.minlen - 1) if a.minlen > 1 and rng.random() < 0.5 or a.maxlen >= 99 else "y" * (a.maxlen + 1), ""))
                 if u[p][1][0] == "" or (len(u[p][1][0]) >= a.minlen and len(u[p][1][0]) <= a.maxlen):
@@ -697,7 +793,43 @@ def break_rule(rng, args, globs, uses, abbr):
             if a.kind == "vec":
                 return (i, ("vec", [max(a.lo, 0) + 1] * a.minuses()))
             return (i, gen_value(rng, a))
-        if kind == "allof":
+        if kind == "differ":
+            # two listed arguments end up with the same value (for int also: equal after conversion)
+            a, b = rng.sample(members, 2)
+            if args[a].kind == "int":
+                lo, hi = max(args[a].lo, args[b].lo), min(args[a].hi, args[b].hi)
+                if lo > hi:
+                    return None
+                v = rng.choice([lo, hi, rng.randint(lo, hi)])
+                ta, tb = str(v), str(v)
+                if v >= 0 and rng.random() < 0.3:
+                    tb = "+" + tb
+                pa, pb = (a, (ta, v)), (b, (tb, v))
+            else:
+                common = [w for w in str_candidates(args[a]) if w in str_candidates(args[b])]
+                if not common:
+                    return None
+                w = rng.choice(common)
+                pa, pb = (a, (w, w)), (b, (w, w))
+            u = [x for x in u if x[0] not in (a, b)] + rng.sample([pa, pb], 2)
+        elif kind == "disjoint":
+            # the two lists share an element; the lists are built unsorted where the cardinality allows it
+            a, b = members
+            if rng.random() < 0.5:
+                a, b = b, a
+            c = max(args[a].lo, args[b].lo, 0) + rng.randint(0, 9)
+            ina = [int(x) for x in args[a].init.split(",")] if args[a].init else []
+
+            def listfor(i, other):
+                k = max(args[i].minuses(), min(2, args[i].maxuses()))
+                return [c + other] * (k - 1) + [c]
+            va, vb = listfor(a, 3), listfor(b, 7)
+            if rng.random() < 0.3 and ina:
+                vb = [ina[-1] + 11] * (len(vb) - 1) + [ina[-1]]      # clash with the initial content of the other list
+                if ina[-1] < max(args[b].lo, 0):
+                    return None
+            u = [x for x in u if x[0] not in (a, b)] + [(a, ("vec", va)), (b, ("vec", vb))]
+        elif kind == "allof":
             j = rng.choice(members)
             u = [x for x in u if x[0] != j]
         elif kind == "anyof" or (kind == "oneof" and rng.random() < 0.6):
